@@ -1,5 +1,6 @@
 import Unimock.Lemmas.Verify
 import Unimock.Lemmas.History
+import Unimock.Generated.Counter
 import Unimock.Lemmas.Builder
 import Unimock.Model.Lifecycle
 /-!
@@ -147,5 +148,32 @@ example :
     let p1 : Pattern Nat Int := ⟨some (fun _ => some true), none, [⟨0, .ret 6 false, false⟩], 0, 0, 0, .atLeast, 0⟩
     let s : Shared Nat Int := ⟨.error, [⟨mi, .anyOrder, [p0, p1]⟩], 0, []⟩
     matchCount 7 0 s [(mi, 1), (mi, 2), (mi, 1)] = 2 ∧ matchCount 7 1 s [(mi, 1), (mi, 2), (mi, 1)] = 1 := by decide
+
+/-! ## the verification conditions as written in the source
+
+`Generated/Counter.lean` is produced on every run by `tools/translate_counter.py` from the text of
+`CallCountExpectation::lower_bound`, `CallCounter::verify` (src/counter.rs) and `FnMocker::verify`
+(src/fn_mocker.rs). The model's `lowerBound` / `countOk` / never-called test — which all theorems above are
+about — are proved equal to those translations. -/
+
+theorem C03_source_lower_bound (min : Nat) (ex : Exactness) : Generated.lowerBoundSrc min ex = lowerBound min ex := by
+  cases ex <;> simp [Generated.lowerBoundSrc, lowerBound]
+
+theorem C03_source_verify_condition (p : Pattern α ρ) :
+    Generated.verifyFailsSrc p.count (Generated.lowerBoundSrc p.min p.ex) p.ex = !countOk p := by
+  rw [C03_source_lower_bound]
+  unfold countOk
+  cases h : p.ex <;> simp only [Generated.verifyFailsSrc, lowerBound]
+  · by_cases hc : p.count = p.min <;> simp [hc]
+  · by_cases hc : p.min ≤ p.count
+    · simp [hc, Nat.not_lt.2 hc]
+    · simp [hc, Nat.lt_of_not_le hc]
+  · by_cases hc : p.min + 1 ≤ p.count
+    · simp [hc, Nat.not_lt.2 hc]
+    · simp [hc, Nat.lt_of_not_le hc]
+
+theorem C03_source_never_called (fm : FnMocker α ρ) :
+    Generated.neverCalledSrc ((fm.pats.map (·.count)).sum) = decide ((fm.pats.map (·.count)).sum = 0) := by
+  simp [Generated.neverCalledSrc]
 
 end Unimock
